@@ -22,11 +22,12 @@ POOL = ['label_freq-(3; 100)', 'fa AND fb-(9; 100)', 'BRAND', 'fb AND BRAND-(4; 
 LABEL = 'label-(2; 100)'
 BOUNDS = {'quick': {'names': [1, 2, 3], 'numeric': [1, 2, 3]}, 'thorough': {'names': [3, 4], 'numeric': [3, 4]}}
 F, I1, B, I2 = POOL
+I3 = 'fc AND fd'      # an interaction name WITHOUT the '-(cardinality; coverage)' annotation (--include_cardinality_in_feature_names False)
 # name patterns for the numeric condition (scores free reals): same feature several times, both orientations, interactions sharing a constituent, a non-label row
 TEMPLATES = {
     1: [[(F, LABEL)], [(LABEL, I1)]],
-    2: [[(F, LABEL), (LABEL, F)], [(F, LABEL), (I1, LABEL)], [(I2, LABEL), (LABEL, I1)], [(B, LABEL), (I2, LABEL)]],
-    3: [[(F, LABEL), (LABEL, F), (F, LABEL)], [(F, LABEL), (I1, LABEL), (I2, LABEL)], [(B, LABEL), (I2, LABEL), (LABEL, I1)], [(F, LABEL), (F, I1), (LABEL, I1)], [(I1, LABEL), (LABEL, I1), (I2, LABEL)]],
+    2: [[(F, LABEL), (LABEL, F)], [(F, LABEL), (I1, LABEL)], [(I2, LABEL), (LABEL, I1)], [(B, LABEL), (I2, LABEL)], [(I3, LABEL), (LABEL, I1)]],
+    3: [[(I3, LABEL), (LABEL, I3), (I2, LABEL)], [(F, LABEL), (LABEL, F), (F, LABEL)], [(F, LABEL), (I1, LABEL), (I2, LABEL)], [(B, LABEL), (I2, LABEL), (LABEL, I1)], [(F, LABEL), (F, I1), (LABEL, I1)], [(I1, LABEL), (LABEL, I1), (I2, LABEL)]],
     4: [[(F, LABEL), (LABEL, F), (F, LABEL), (LABEL, F)], [(F, LABEL), (I1, LABEL), (I2, LABEL), (B, LABEL)], [(I1, LABEL), (LABEL, I1), (I2, LABEL), (I2, LABEL)], [(F, LABEL), (F, LABEL), (I1, LABEL), (B, I2)]],
 }
 NUMS = [0.75, -1.5, 3.0, 0.25, 2.0]
